@@ -215,8 +215,33 @@ def run(ctx):
     ctx.coverage["counts"] = {"corpus": ncorp, "history_cases": n_hist, "scripted_property_cases": n_sprop, "real_finder_cases": n_real, "max_atoms": max_atoms}
     ctx.coverage["timing_s"] = {"impl": round(t_impl, 1), "coq": round(t_coq, 1)}
 
+    # ---- history stream: one SBC instance reused across structures (same atoms with another periodicity first)
+    from props import sbc_gen as _G
+    n_reuse = 24 if quick else 160
+    rcases = []
+    for k in range(n_reuse):
+        st, meta = _G.gen_structure(ctx.rng, 60 if quick else 120, kinds=["defect", "crystal", "two"] if hasattr(_G, "KINDS") else None)
+        if not any(st["pbc"]):
+            st["pbc"] = [True, True, True]
+        alt = [not b for b in st["pbc"]] if not all(st["pbc"]) else [False, False, False]
+        rcases.append({"id": k, "structure": st, "alt_pbc": alt, "kwargs": {"bond_threshold": ctx.rng.choice([0.5, 0.65, 0.9]), "seed": 7}, "meta": meta})
+    chunks = [rcases[i::8] for i in range(8)]
+    routs = C.impl_run_parallel("sbc_reuse_impl", [{"cases": ch} for ch in chunks if ch], jobs=8)
+    rrows = [r for o in routs for r in o["rows"]]
+    reuse_bad = [r for r in rrows if r.get("dim_mismatch") or r.get("same_as_fresh") is False]
+    ctx.add_cases(len(rrows), sum(1 for r in rrows if "error" not in r))
+    ctx.coverage["sbc_instance_reuse"] = {"sequences": len(rrows), "errors": sum(1 for r in rrows if "error" in r), "failures": reuse_bad[:5]}
+    for r in reuse_bad[:1]:
+        rc = [c for c in rcases if c["id"] == r["id"]][0]
+        ctx.violation({"kind": "property-fails-on-implementation",
+                       "history": "sbc = SBC(); sbc.get_clusters(structure with pbc=alt_pbc, **kwargs); clusters = sbc.get_clusters(structure, **kwargs); "
+                                  "compare cluster.get_dimensionality() with matid.geometry.get_dimensionality(cluster.get_atoms(), bond_threshold, radii) "
+                                  "and the clusters with those of a fresh SBC()",
+                       "structure": rc["structure"], "alt_pbc": rc["alt_pbc"], "kwargs": rc["kwargs"], "detail": r,
+                       "broken_obligation": broken or None}, found_input=True)
+
     # ---- verdict
-    reported = False
+    reported = bool(reuse_bad)
     seen_kinds = set()
     # real-finder structures first, then scripted runs, operation histories last
     direct.sort(key=lambda x: (by_id[x[0]]["mode"] == "script", "history" in by_id[x[0]], x[0]))
